@@ -12,6 +12,51 @@ type Query { me: User users: [User] m: [[String!]] }
 type User { name: String friend: User }
 `
 
+const probeSDL2 = `schema { query: Query }
+type Query { u: U o: A n: N }
+union U = A | B
+union V = A
+interface N { n: N s: String u: U nn: [[N]] }
+interface M { s: String }
+type A implements N { n: N s: String b: Boolean u: U nn: [[N]] }
+type B implements N & M { n: N s: String b: Boolean u: U nn: [[N]] }
+`
+
+// outputProbe reproduces while the rendered output differs (as JSON) from what the operation
+// and the data demand.
+type outputProbe struct {
+	in   probeInput
+	want string
+}
+
+func (p outputProbe) run() string {
+	r, err := probeRender(p.in)
+	if err != nil || r.panicked != "" {
+		return ""
+	}
+	got, err1 := parseJSON(r.out)
+	want, err2 := parseJSON([]byte(p.want))
+	if err1 != nil || err2 != nil {
+		return ""
+	}
+	if jsonEqual(got.get("data"), want.get("data")) && (got.get("errors") != nil) == (want.get("errors") != nil) {
+		return ""
+	}
+	return fmt.Sprintf("%s with %s renders %s (demanded: %s)", p.in.Op, p.in.Data, r.out, p.want)
+}
+
+func outputProbes(ps ...outputProbe) func() string {
+	return func() string {
+		var hits []string
+		for _, p := range ps {
+			if h := p.run(); h != "" {
+				hits = append(hits, h)
+			}
+		}
+		return strings.Join(hits, "; ")
+	}
+}
+
 type probeInput struct {
 	SDL  string `json:"sdl"`
 	Op   string `json:"op"`
@@ -63,6 +108,43 @@ func probes() pbt.Probes {
 				}
 				return strings.Join(hits, "; ")
 			},
+		},
+		findingUnionTypename: {
+			Input: probeInput{probeSDL2, `{ u { k: __typename __typename ... on M { k: __typename } } }`, `{"u":{"k":"A","__typename":"A"}}`},
+			Fn: outputProbes(
+				outputProbe{probeInput{probeSDL2, `{ u { k: __typename __typename ... on M { k: __typename } } }`, `{"u":{"k":"A","__typename":"A"}}`}, `{"data":{"u":{"k":"A","__typename":"A"}}}`},
+				outputProbe{probeInput{probeSDL2, `{ u { ... on M { ... on U { k: __typename } s } } }`, `{"u":{"__typename":"A"}}`}, `{"data":{"u":{}}}`},
+			),
+		},
+		findingCopyPossible: {
+			Input: probeInput{probeSDL2, `{ u { __typename ... on N { n { s } } } }`, `{"u":{"__typename":"B","n":{"__typename":"Nope","s":"x"}}}`},
+			Fn: outputProbes(
+				outputProbe{probeInput{probeSDL2, `{ u { __typename ... on N { n { s } } } }`, `{"u":{"__typename":"B","n":{"__typename":"Nope","s":"x"}}}`}, `{"errors":[{"message":"invalid __typename"}],"data":{"u":{"__typename":"B","n":null}}}`},
+			),
+		},
+		findingConcreteNoTypename: {
+			Input: probeInput{probeSDL2, `{ o { ... on U { ... on A { b } } } }`, `{"o":{"b":true}}`},
+			Fn: outputProbes(
+				outputProbe{probeInput{probeSDL2, `{ o { ... on U { ... on A { b } } } }`, `{"o":{"b":true}}`}, `{"data":{"o":{"b":true}}}`},
+			),
+		},
+		findingMergeScalars: {
+			Input: probeInput{probeSDL2, `{ n { u { ... on A { s } } ... on B { u { ... on A { s } } } } }`, `{"n":{"__typename":"A","u":{"__typename":"A","s":"x"}}}`},
+			Fn: outputProbes(
+				outputProbe{probeInput{probeSDL2, `{ n { u { ... on A { s } } ... on B { u { ... on A { s } } } } }`, `{"n":{"__typename":"A","u":{"__typename":"A","s":"x"}}}`}, `{"data":{"n":{"u":{"s":"x"}}}}`},
+			),
+		},
+		findingMergeNestedList: {
+			Input: probeInput{probeSDL2, `{ n { nn { s } ... on B { nn { b: s } } } }`, `{"n":{"__typename":"B","nn":[[{"__typename":"A","s":"x","b":"y"}]]}}`},
+			Fn: outputProbes(
+				outputProbe{probeInput{probeSDL2, `{ n { nn { s } ... on B { nn { b: s } } } }`, `{"n":{"__typename":"B","nn":[[{"__typename":"A","s":"x","b":"y"}]]}}`}, `{"data":{"n":{"nn":[[{"s":"x","b":"y"}]]}}}`},
+			),
+		},
+		findingNestedAbstract: {
+			Input: probeInput{probeSDL2, `{ n { ... on V { ... on N { s } } } }`, `{"n":{"__typename":"B","s":"x"}}`},
+			Fn: outputProbes(
+				outputProbe{probeInput{probeSDL2, `{ n { ... on V { ... on N { s } } } }`, `{"n":{"__typename":"B","s":"x"}}`}, `{"data":{"n":{}}}`},
+			),
 		},
 		findingPanic: {
 			Input: probeInput{probeSDL, `{ m }`, `{"m":[["a",null]]}`},
